@@ -246,7 +246,7 @@ func TestC06(t *testing.T) {
 		"(children encoded after the parent), then only zero padding of at most 7 bytes. Non-trivial: a container with >= 2 children of different size classes (mod 8), or a leaf whose size depends on its content; distinct by hash of (kind, bytes).")
 	c.Assume("container header sizes and child order are taken from the wire layouts of DESIGN.md Appendix A (not from the library's Len())",
 		"NXActionConnTrack keeps its nested actions in an unexported field without accessor: its embedding is judged by C02/C03 through the wire model only")
-	rapid.Check(t, func(rt *rapid.T) {
+	checkRapid(t, c, func(rt *rapid.T) {
 		c.Eval()
 		switch rapid.IntRange(0, 14).Draw(rt, "dhcp_lldp?") {
 		case 0:
